@@ -18,7 +18,7 @@ func init() {
 			"that both histogram accessors of the merge iterator downgrade a non-gauge hint to 'unknown' whenever the flag is clear, and that the tombstone/trim wrapper DeletedIterator does the same for a sample reached by skipping deleted ones (finding F11).",
 		Note:     "Trusted: go/packages, go/types, go/cfg; rule tables in checker/c12.go.",
 		Covers:   "chunkenc.counterResetHint and its callers; writers of Histogram.CounterResetHint / FloatHistogram.CounterResetHint in storage and tsdb (non-test); chainSampleIterator.Next/Seek/AtHistogram/AtFloatHistogram; DeletedIterator.Next/Seek/AtHistogram/AtFloatHistogram.",
-		NotCover: "that the appenders cut a new chunk on every decrease or layout change (value-level), PromQL's use of the hint.",
+		NotCover: "that the shared reset-detection logic is itself right (value-level; only its agreement across the integer/float and plain/ST copies is decided), PromQL's use of the hint.",
 		Run:      runC12,
 		MinObligations: 18,
 	})
@@ -174,6 +174,17 @@ func runC12(c *eng.Ctx) {
 			c.WritersSubset("R4", D+"."+flag, 3, D+".Next", D+".Seek")
 		}
 	}
+	// ---- R5 reset detection stays in step between the integer and the float chunk appenders ----
+	// (the 'not a reset' hint of every later sample of a chunk rests on appendable having cut the chunk
+	// on any decrease; the two bucket-comparison routines are near-copies and are each other's oracle)
+	c.SiblingsEqual("R5", "tsdb/chunkenc:expandIntSpansAndBuckets", "tsdb/chunkenc:expandFloatSpansAndBuckets", histRenames, []eng.SiblingDiff{
+		{A: "aCount = aBuckets[aCountIdx]", B: "aCount = aBuckets[aCountIdx].value", Why: "float buckets are stored as xor values"},
+		{A: "aCount += aBuckets[aCountIdx]", B: "aCount = aBuckets[aCountIdx].value", Why: "integer buckets are deltas, float buckets absolute"},
+		{A: "bCount += bBuckets[bCountIdx]", B: "bCount = bBuckets[bCountIdx]", Why: "integer buckets are deltas, float buckets absolute"},
+	})
+	c.SiblingsEqual("R5", "tsdb/chunkenc:HistogramAppender.appendable", "tsdb/chunkenc:HistogramSTAppender.appendable", histRenames, nil)
+	c.SiblingsEqual("R5", "tsdb/chunkenc:FloatHistogramAppender.appendable", "tsdb/chunkenc:FloatHistogramSTAppender.appendable", histRenames, nil)
+	c.SiblingsEqual("R5", "storage:chainSampleIterator.AtHistogram", "storage:chainSampleIterator.AtFloatHistogram", histRenames, nil)
 	// ---- R1 the merge iterator ----
 	{
 		S := "storage:chainSampleIterator"
